@@ -1,10 +1,135 @@
-(* Property C15 — theorems only (placeholder while the proofs are being built). *)
-From Coq Require Import List QArith Bool.
-From DV Require Import Model.C15_HV.
+(* Property C15 — theorems only.  Model: Model/C15_HV.v; proofs: Proofs/C15_HV.v.
+
+   Reading of the statement.  Minimisation; a point p spans the box [p, ref).  "The Lebesgue measure
+   of the union of the boxes" is written as the finite sum [grid_measure]: the coordinates of the points
+   and of the reference cut the space into grid cells; each cell lies inside the union or is disjoint
+   from it (C15_cell_homogeneous), and the cells below the reference tile the bounding region, so the
+   measure of the union is the sum of the volumes of the covered cells.  Finite additivity of the Lebesgue
+   measure on disjoint boxes is NOT formalised (no measure theory library is installed); it is the one
+   mathematical step between [grid_measure] and the measure.
+
+   What is proved is about the model [hv] (HSO recursion).  That the C extension and pyhv compute [hv]
+   is established by the correspondence run (harness/c15.py), not by these theorems: the dimension-sweep
+   data structures are not modelled. *)
+From Coq Require Import List QArith Bool SetoidList Sorted Permutation.
+From DV Require Import Model.C15_HV Proofs.C15_HV.
 Import ListNotations.
 Local Open Scope Q_scope.
 
-Example C15_witness_value :
+(* hv is the measure: every dimension, every finite point list.  No hypothesis is needed: a point with a
+   coordinate on or beyond the reference has an empty box on both sides of the equation. *)
+Theorem C15_hv_is_measure : forall ref pts, hv ref pts == grid_measure ref pts.
+Proof. exact hv_is_measure. Qed.
+Print Assumptions C15_hv_is_measure.
+
+(* stronger: hv equals the grid sum on EVERY grid that contains the coordinates of the points (so the grid
+   sum is invariant under refinement of the grid) *)
+Theorem C15_hv_any_grid : forall ref pts axes,
+  valid_grid ref pts axes -> hv ref pts == gmeasure axes pts.
+Proof. exact hv_gmeasure. Qed.
+Print Assumptions C15_hv_any_grid.
+
+Theorem C15_grid_refine : forall ref pts axes1 axes2,
+  valid_grid ref pts axes1 -> valid_grid ref pts axes2 -> gmeasure axes1 pts == gmeasure axes2 pts.
+Proof. exact gmeasure_grid_independent. Qed.
+Print Assumptions C15_grid_refine.
+
+(* geometric meaning of "covered": a cell of a valid grid lies inside the union of the boxes or is
+   disjoint from it, and the former happens exactly when its lower corner is dominated *)
+Theorem C15_cell_homogeneous : forall ref pts axes c x,
+  valid_grid ref pts axes -> In c (cells axes) -> in_cell x c ->
+  (covered pts c = true <-> exists p, In p pts /\ wdom ref p x).
+Proof. exact cell_homogeneous. Qed.
+Print Assumptions C15_cell_homogeneous.
+
+(* regardless of point order, duplicates or dominated points *)
+Theorem C15_hv_perm : forall ref pts1 pts2, Permutation pts1 pts2 -> hv ref pts1 == hv ref pts2.
+Proof. exact hv_perm. Qed.
+Print Assumptions C15_hv_perm.
+
+Theorem C15_hv_dup : forall ref p pts, In p pts -> hv ref (p :: pts) == hv ref pts.
+Proof. exact hv_dup. Qed.
+Print Assumptions C15_hv_dup.
+
+Theorem C15_hv_set_ext : forall ref pts1 pts2,
+  (forall p, In p pts1 <-> In p pts2) -> hv ref pts1 == hv ref pts2.
+Proof. exact hv_set_ext. Qed.
+Print Assumptions C15_hv_set_ext.
+
+Theorem C15_hv_dominated : forall ref p q pts,
+  In p pts -> wdom ref p q -> hv ref (q :: pts) == hv ref pts.
+Proof. exact hv_dominated. Qed.
+Print Assumptions C15_hv_dominated.
+
+Theorem C15_hv_dominated_Forall2 : forall ref p q pts,
+  In p pts -> Forall2 Qle p q -> hv ref (q :: pts) == hv ref pts.
+Proof. intros ref p q pts H D. apply (hv_dominated ref p q pts H). apply Forall2_wdom. exact D. Qed.
+Print Assumptions C15_hv_dominated_Forall2.
+
+(* points on (or beyond) the reference boundary contribute nothing *)
+Theorem C15_hv_boundary : forall ref q pts, outside ref q -> hv ref (q :: pts) == hv ref pts.
+Proof. exact hv_boundary. Qed.
+Print Assumptions C15_hv_boundary.
+
+Theorem C15_hv_mono : forall ref pts1 pts2,
+  (forall p, In p pts1 -> In p pts2) -> hv ref pts1 <= hv ref pts2.
+Proof. exact hv_mono. Qed.
+Print Assumptions C15_hv_mono.
+
+(* closed forms: one point, one dimension, two-dimensional staircase *)
+Theorem C15_hv_single : forall ref p, strictly_below ref p -> hv ref [p] == box_vol ref p.
+Proof. exact hv_single. Qed.
+Print Assumptions C15_hv_single.
+
+Theorem C15_hv_1d : forall r p pts,
+  In p pts -> hd0 p < r -> (forall q, In q pts -> hd0 p <= hd0 q) -> hv [r] pts == r - hd0 p.
+Proof. exact hv_1d. Qed.
+Print Assumptions C15_hv_1d.
+
+Theorem C15_hv_2d_staircase : forall rx ry l,
+  staircase rx ry l -> hv [rx; ry] (map (fun xy => [fst xy; snd xy]) l) == stair_area rx ry l.
+Proof. exact hv_2d_staircase. Qed.
+Print Assumptions C15_hv_2d_staircase.
+
+(* the hypervolume of a population is that measure taken on its negated weighted objectives; with the
+   default reference (worst + 1) every point strictly dominates the reference *)
+Theorem C15_population_hv : forall w vals refo,
+  let P := map (fun v => map Qopp (map2 Qmult v w)) vals in
+  pop_hv w vals refo == grid_measure (the_ref refo P) P.
+Proof. exact pop_hv_is_measure. Qed.
+Print Assumptions C15_population_hv.
+
+Theorem C15_default_ref : forall d pts,
+  pts <> [] -> Forall (fun p => length p = d) pts ->
+  length (default_ref pts) = d /\ Forall (fun p => Forall2 Qlt p (default_ref pts)) pts.
+Proof. exact default_ref_strict. Qed.
+Print Assumptions C15_default_ref.
+
+(* the indicator returns the (first) index whose removal reduces the hypervolume the least *)
+Theorem C15_indicator_least_loss : forall w vals refo, vals <> [] ->
+  let P := wobj w vals in
+  let r := the_ref refo P in
+  let i := indicator w vals refo in
+  let loss j := hv r P - hv r (remove_nth j P) in
+  (i < length vals)%nat /\
+  (forall j, (j < length vals)%nat -> loss i <= loss j) /\
+  (forall j, (j < i)%nat -> loss i < loss j) /\
+  (forall j, 0 <= loss j).
+Proof. exact indicator_least_loss. Qed.
+Print Assumptions C15_indicator_least_loss.
+
+(* non-vacuity: the input on which pyhv was wrong before the repair (12 instead of 20), a staircase,
+   a population *)
+Example C15_nonvacuous :
   hv [1;3;3;3] [[0;1;0;1];[0;0;2;1];[0;1;0;0]] == 20 /\
-  grid_measure [1;3;3;3] [[0;1;0;1];[0;0;2;1];[0;1;0;0]] == 20.
-Proof. split; vm_compute; reflexivity. Qed.
+  grid_measure [1;3;3;3] [[0;1;0;1];[0;0;2;1];[0;1;0;0]] == 20 /\
+  valid_grid [1;3;3;3] [[0;1;0;1];[0;0;2;1];[0;1;0;0]] [[0;1];[0;1;3];[0;2;3];[0;1;3]] /\
+  staircase 4 4 [(0,3);(1,2);(3,0)] /\
+  indicator [1;-1] [[1;5];[2;3];[3;4];[0;9]] None = 0%nat /\
+  outside [1;3;3;3] [0;3;0;0] /\ wdom [1;3;3;3] [0;1;0;0] [0;1;0;1].
+Proof.
+  split; [vm_compute; reflexivity|]. split; [vm_compute; reflexivity|].
+  split; [apply C15_nonvacuous_grid|]. split; [apply C15_nonvacuous_stair|].
+  split; [vm_compute; reflexivity|]. split; [cbn; right; left; discriminate|].
+  cbn. repeat split; discriminate.
+Qed.
